@@ -135,7 +135,7 @@ class Ctx:
             for attempt in (0, 1):
                 null = os.open(os.devnull, os.O_RDWR)
                 old = signal.signal(signal.SIGALRM, _alarm)
-                signal.setitimer(signal.ITIMER_REAL, TIMEOUT)
+                signal.setitimer(signal.ITIMER_REAL, TIMEOUT, 5)
                 try:
                     self.ebp = processor.EbuildProcessor(False, False, fd_pipes={1: null, 2: null})
                     break
@@ -173,7 +173,7 @@ class Ctx:
             return
         ok = False
         old = signal.signal(signal.SIGALRM, _alarm)
-        signal.setitimer(signal.ITIMER_REAL, TIMEOUT)
+        signal.setitimer(signal.ITIMER_REAL, TIMEOUT, 5)
         try:
             try:
                 if ebp.is_alive:
@@ -295,7 +295,7 @@ def run_env(ctx, transport, vars_, timeout=None):
     timeout = timeout or TIMEOUT
     ctx.defer_kill(True)
     old = signal.signal(signal.SIGALRM, _alarm)
-    signal.setitimer(signal.ITIMER_REAL, timeout)
+    signal.setitimer(signal.ITIMER_REAL, timeout, 5)
     try:
         try:
             if transport in ("inline", "file"):
